@@ -71,8 +71,8 @@ def run_config(cfg):
                     ret = s.events[-1]
                     raised = ret["raised"]
                     exc_t = ret["exc"]
-                except collab.InjectedFault as ex:
-                    raised, same, exc_t = True, True, "InjectedFault"
+                except (collab.InjectedFault, collab.InjectedInterrupt) as ex:
+                    raised, same, exc_t = True, True, type(ex).__name__
                 except BaseException as ex:   # a different exception object reached the caller
                     raised, same, exc_t = True, False, type(ex).__name__
             s.rec.fault = None
@@ -112,6 +112,11 @@ def run_config(cfg):
             action = (faults.INMEM_ACTION.get(kind) if inmem else None) or faults.KIND_TO_ACTION[kind]
             if action == "RunTask" and cfg["call"]["api"] != "marginal" and kind in ("task",):
                 pass
+            # alternate ordinary exceptions and BaseException-only failures (Ctrl-C / SystemExit); thorough: both
+            flavours = ["exception", "interrupt"] if not cfg.get("max_points") else [["exception", "interrupt"][(j + len(kind)) % 2]]
+            for flavour in flavours:
+                _inject_one(one, traces, cfg, kind, j, flavour, action, inmem, model_points)
+            continue
             r = one((kind, j))
             mp = (cfg["call"]["api"], "inmem" if inmem else cfg["call"]["path"], action) in model_points or \
                  (action in ("RunTask", "RunLinearTask") and (cfg["call"]["api"], cfg["call"]["path"], "RunTask") in model_points)
@@ -123,6 +128,16 @@ def run_config(cfg):
         tempfile.tempdir = old_tmp
         shutil.rmtree(base, ignore_errors=True)
     return traces
+
+
+def _inject_one(one, traces, cfg, kind, j, flavour, action, inmem, model_points):
+    r = one((kind, j, flavour))
+    mp = (cfg["call"]["api"], "inmem" if inmem else cfg["call"]["path"], action) in model_points or \
+         (action in ("RunTask", "RunLinearTask") and (cfg["call"]["api"], cfg["call"]["path"], "RunTask") in model_points)
+    traces.append({"id": "%s-%s-%d-%s" % (cfg["id"], kind, j, flavour), "api": cfg["call"]["api"], "path": cfg["call"]["path"],
+                   "action": action, "occurrence": j, "injected": True, "raised": r["raised"], "sameexc": r["same"],
+                   "tmpleft": r["left"], "usersame": r["usersame"], "followok": r["follow"], "modelpoint": bool(mp),
+                   "kind": kind, "exc": r["exc"], "seq": [], "flavour": flavour})
 
 
 def run(ctx, selftest=False):
